@@ -5,22 +5,15 @@ CONSTANTS
   NP = 8
   NR = 2
   NC = 5
-  MINPKS = 2
+  MINPKS = 0
   MAXGRAINS = 3
   UNIQ_NUM = 1
   UNIQ_DEN = 2
   NPASS = 2
-  MINPKS2 = 2
+  MINPKS2 = 1
   NCAP = 0
   ALLHITS = FALSE
-  NSAVE = 0
-  FRESH = TRUE
-INVARIANT GaRange
-INVARIANT AcceptedScore
-INVARIANT GrainCap
-INVARIANT PairCap
+  NSAVE = 2
+  FRESH = FALSE
 INVARIANT NoRepeat
-INVARIANT OwnPeaksKept
-INVARIANT Completeness
-PROPERTY Termination
 CHECK_DEADLOCK FALSE
